@@ -5,13 +5,23 @@ prop("C11", "exploration",
      "reliable control tube; rapid draws 1..300 raw frames injected into the P->M stream: every flag combination, any tube id "
      "(never the control tube's own (reliability,id)), length field in {actual, actual+-1, 0, 1, 0x7FFF, 0x8000, 0xFFF3, 0xFFF4, "
      "0xFFFF}, datagrams truncated to 0..11 bytes, ack/frame numbers in {0,1,2,3,small,1000,2^31,2^31+1,2^32-2,2^32-1}, REQ/RESP "
-     "layouts with any tube type, with gaps and optionally interleaved honest traffic, and (one case in three) further frames - biased to REQ - injected WHILE the muxer is stopping and the peer withholds its answers. Oracle: no panic; the control tube moves "
-     "fresh data both ways during and after the junk; Muxer.Stop returns within 10 virtual seconds; no goroutine is left. "
+     "layouts with any tube type, with gaps and optionally interleaved honest traffic, and (one case in three) further frames - biased to REQ - injected WHILE the muxer is stopping and the peer withholds its answers - for good (Stop ends through its forced close) or, "
+     "in six of ten such cases, until a drawn moment 60-900 ms after Stop began, when the peer completes the close handshake of every "
+     "tube that was open when Stop began and of none it requested afterwards (Stop ends gracefully, before the forced close). "
+     "Oracle: no panic, also not in a timer/sender goroutine during the 3 virtual minutes the case keeps running after Stop; the "
+     "control tube moves fresh data both ways during and after the junk; Muxer.Stop returns within 10 virtual seconds; when Stop has "
+     "returned no tube that is still registered or was ever handed out by Accept is open (white box: closed channel), and Accept has "
+     "handed out no tube requested after the harness saw the muxer in the stopping state; no goroutine is left. "
      "Non-trivial = sequence with at least one internally inconsistent frame; distinct by case hash. Decoder half: random byte "
      "strings and mutations of valid encodings (every length/enum field set to {0,1,actual+-1,0xFF,0xFFFF,large}, every "
      "truncation) into common.ReadString, codex.GetCmd/readSize/getStatus, portforwarding.readPacket, the authgrants readers and "
      "userauth.GetInitMsg (over a real reliable tube); oracle: value or error, no panic, returns on a closed stream, bytes "
-     "allocated during the call <= 256 KiB + 16 x len(input). Non-trivial there = input whose length fields disagree with its size.",
+     "allocated during the call <= 256 KiB + 16 x len(input). Every decoder input is presented twice: in one piece, and under a "
+     "drawn delivery pattern (vlib/wire Delivery: one byte per Read, segments or per-call limits of drawn sizes, (0, nil) results "
+     "never twice in a row, end-of-stream returned together with the last bytes; enumerated sweeps derive the pattern from the "
+     "input bytes); the same oracles hold under every delivery. For the two readers that need a real tube the pattern becomes up "
+     "to 24 separate writes, each delivered and read before the next (and, for GetInitMsg, reading only after the peer's close). "
+     "Non-trivial there = input whose length fields disagree with its size.",
      ["junk never addresses the honest control tube's own (reliability, id): an authenticated peer can always disturb a tube it owns",
       "the application keeps calling Accept (as hopserver's session loop does)",
       "32-bit length fields are capped at 32 MiB in the decoder harness (a literal 0xFFFFFFFF made unfixed GetCmd allocate 24 GB and get the test process killed)"],
@@ -23,7 +33,8 @@ prop("C11", "exploration",
       dict(name="dec-userauth", pkg="userauth", run="^TestVerifC11Dec", shards=dict(quick=8, thorough=16), thorough_scale=30)],
      text="Generated hostile frame sequences are injected into a real muxer next to honest traffic under a virtual clock; liveness of "
           "the other tube, clean stop and absence of panics/leaks are checked. Decoder half: arbitrary and mutated byte strings into "
-          "every application-protocol decoder with a panic and allocation oracle.",
+          "every application-protocol decoder with a panic and allocation oracle, each input both in one piece and under a "
+          "generated delivery pattern (short reads, zero-byte reads, end-of-stream with the last bytes).",
      note="trusts testing/synctest, memconn, rapid; memory oracle is per call (TotalAlloc delta), not long-run growth",
      technique="property-based testing / structured fuzzing (rapid) of frame sequences and decoder inputs with crash, liveness and allocation oracles",
      design="DESIGN.md section 4, C11")
